@@ -28,7 +28,11 @@ pub open spec fn inst_iv_merge_post(a: IntervalDomain, b: IntervalDomain, r: Int
     &&& (forall|v: Bitvector| #![trigger a.gamma(v)] #![trigger b.gamma(v)] #![trigger r.gamma(v)] a.gamma(v) || b.gamma(v) ==> r.gamma(v))
     &&& ((forall|v: Bitvector| b.gamma(v) ==> a.gamma(v)) ==> (forall|v: Bitvector| #[trigger] r.gamma(v) ==> a.gamma(v)))
     &&& ((forall|v: Bitvector| a.gamma(v) ==> b.gamma(v)) ==> (forall|v: Bitvector| #[trigger] r.gamma(v) ==> b.gamma(v)))
+    // the widening delay of the result: not above both operands', or a length of the (widened) interval
+    &&& (r.widening_delay <= inst_max_u64(a.widening_delay, b.widening_delay) || r.widening_delay < p2(a.w()))
 }
+
+pub open spec fn inst_max_u64(x: u64, y: u64) -> u64 { if x >= y { x } else { y } }
 
 pub open spec fn inst_iv_merge_fn(a: IntervalDomain, b: IntervalDomain) -> IntervalDomain {
     choose|r: IntervalDomain| inst_iv_merge_pre(a, b) ==> inst_iv_merge_post(a, b, r)
@@ -107,7 +111,9 @@ pub open spec fn inst_iv_intersect_pre(a: IntervalDomain, b: IntervalDomain) -> 
 pub open spec fn inst_iv_intersect_post(a: IntervalDomain, b: IntervalDomain, o: Option<IntervalDomain>) -> bool {
     match o {
         Some(r) => r.inv() && r.w() == a.w()
-            && (forall|v: Bitvector| #![trigger a.gamma(v)] #![trigger r.gamma(v)] a.gamma(v) && b.gamma(v) ==> r.gamma(v)),
+            && (forall|v: Bitvector| #![trigger a.gamma(v)] #![trigger r.gamma(v)] a.gamma(v) && b.gamma(v) ==> r.gamma(v))
+            // the widening delay does not grow
+            && r.widening_delay <= inst_max_u64(a.widening_delay, b.widening_delay),
         None => forall|v: Bitvector| !(a.gamma(v) && b.gamma(v)),
     }
 }
@@ -117,9 +123,10 @@ pub open spec fn inst_iv_intersect_fn(a: IntervalDomain, b: IntervalDomain) -> O
 }
 
 // ---- SpecializeByConditional::without_widening_hints ---------------------------------------------------------------
-pub open spec fn inst_iv_unhint_pre(a: IntervalDomain) -> bool { a.inv() }
+/// no precondition (since the repair of finding M1 in unit interval_domain): the whole result for EVERY value
+pub open spec fn inst_iv_unhint_pre(a: IntervalDomain) -> bool { true }
 pub open spec fn inst_iv_unhint_post(a: IntervalDomain, r: IntervalDomain) -> bool {
-    r.inv() && r.interval == a.interval && r.widening_lower_bound is None && r.widening_upper_bound is None && r.widening_delay == 0
+    (a.inv() ==> r.inv()) && r.interval == a.interval && r.widening_lower_bound is None && r.widening_upper_bound is None && r.widening_delay == 0
 }
 pub open spec fn inst_iv_unhint_fn(a: IntervalDomain) -> IntervalDomain {
     choose|r: IntervalDomain| inst_iv_unhint_pre(a) ==> inst_iv_unhint_post(a, r)
@@ -135,13 +142,6 @@ pub open spec fn inst_iv_full(w: nat) -> IntervalDomain {
 }
 
 // ---- the hypotheses of unit data_domain as they hold for T = IntervalDomain ------------------------------------------
-/// dd_hints_hyp RELATIVISED to the precondition of IntervalDomain::without_widening_hints (the first conjunct of dd_hints_hyp is
-/// unconditional in unit data_domain; unit interval_domain delivers it only for well-formed values: see the FINDING in the unit file)
-pub open spec fn inst_dd_hints_hyp_cond() -> bool {
-    forall|a: IntervalDomain, v: Bitvector| #![trigger inst_iv_unhint_fn(a).gamma(v)]
-        a.inv() ==> inst_iv_unhint_fn(a).gamma(v) == a.gamma(v)
-}
-
 /// every component of a pointer/value set is a well-formed interval value of width w
 pub open spec fn inst_dd_all_inv(d: DataDomain<IntervalDomain>, w: nat) -> bool {
     &&& forall|id: AbstractIdentifier| #[trigger] d.relative_values@.contains_key(id) ==> d.relative_values@[id].inv() && d.relative_values@[id].w() == w
@@ -152,6 +152,14 @@ pub open spec fn inst_dd_all_inv(d: DataDomain<IntervalDomain>, w: nat) -> bool 
 pub open spec fn inst_dd_delay_ok(d: DataDomain<IntervalDomain>) -> bool {
     &&& forall|id: AbstractIdentifier| #[trigger] d.relative_values@.contains_key(id) ==> d.relative_values@[id].widening_delay <= i64::MAX
     &&& d.absolute_value is Some ==> d.absolute_value->Some_0.widening_delay <= i64::MAX
+}
+
+/// C04 `intersect` precondition for Data in CONCRETE terms, for values of at most 4 bytes (ALL cases, incl. the mixed pointer/absolute
+/// one): every component well-formed of one width <= 32 bit, every widening delay <= i64::MAX
+pub open spec fn inst_data_isect_pre_small(a: DataDomain<IntervalDomain>, b: DataDomain<IntervalDomain>, w: nat) -> bool {
+    &&& w <= 32
+    &&& inst_dd_all_inv(a, w) && inst_dd_all_inv(b, w)
+    &&& inst_dd_delay_ok(a) && inst_dd_delay_ok(b)
 }
 
 /// C03 precondition for `Data = DataDomain<IntervalDomain>` in CONCRETE terms, for values of at most 4 bytes: no
